@@ -17,7 +17,7 @@ else
   git -C /repo worktree add -q --detach "$tree" HEAD || exit 2
   build="$tree.build"
   trap 'git -C /repo worktree remove --force "$tree" 2>/dev/null; rm -rf "$tree" "$build"' EXIT
-  if ! git -C "$tree" apply "$patch"; then echo "patch does not apply: $patch"; exit 2; fi
+  if ! git -C "$tree" apply "$patch" 2>/dev/null && ! git -C "$tree" apply --3way "$patch" >/dev/null 2>&1; then echo "patch does not apply: $patch"; exit 2; fi
 fi
 if ! (cd "$tree" && GOFLAGS=-mod=mod GOPROXY=off go build ./... ) ; then echo "MUTANT-DOES-NOT-BUILD $patch"; exit 2; fi
 for p in "$@"; do
